@@ -4,7 +4,14 @@ package pubsubp
 import (
 	"context"
 	"encoding/binary"
+	"errors"
 	"github.com/aperturerobotics/bifrost/crypto"
+	"github.com/aperturerobotics/bifrost/link"
+	"github.com/aperturerobotics/bifrost/protocol"
+	pubsub_controller "github.com/aperturerobotics/bifrost/pubsub/controller"
+	"github.com/aperturerobotics/controllerbus/controller"
+	"github.com/aperturerobotics/controllerbus/directive"
+	"github.com/blang/semver/v4"
 	"io"
 	"net"
 	"os"
@@ -55,6 +62,41 @@ type node struct {
 	mu     sync.Mutex
 	got    []delivery
 	subs   map[string]pubsub.Subscription
+	// controller mode: the FloodSub is built and given its streams by the real pubsub controller
+	ctrl    *pubsub_controller.Controller
+	pending []string
+}
+
+// newCtlNode builds a node whose FloodSub is constructed and fed by the real pubsub controller. The controller
+// is not running yet: start runs it.
+func newCtlNode(idx, key int) *node {
+	ctx, cancel := context.WithCancel(context.Background())
+	n := &node{idx: idx, key: key, ctx: ctx, cancel: cancel, subs: map[string]pubsub.Subscription{}}
+	n.ctrl = pubsub_controller.NewController(quietLog, nil, controller.NewInfo("verif/pubsub", semver.MustParse("0.0.1"), "x"), "", floodsub.FloodSubID,
+		func(ctx context.Context, le *logrus.Entry, p peer.Peer, handler pubsub.PubSubHandler) (pubsub.PubSub, error) {
+			return floodsub.NewFloodSub(ctx, le, handler, &floodsub.Config{})
+		})
+	return n
+}
+
+// start runs the controller of a controller-mode node and performs the subscriptions asked for so far.
+func (n *node) start() error {
+	go func() { _ = n.ctrl.Execute(n.ctx) }()
+	gctx, gcancel := context.WithTimeout(n.ctx, 10*time.Second)
+	defer gcancel()
+	ps, err := n.ctrl.GetPubSub(gctx)
+	if err != nil {
+		return err
+	}
+	n.ps = ps
+	pend := n.pending
+	n.pending = nil
+	for _, ch := range pend {
+		if err := n.subscribe(ch); err != nil {
+			return err
+		}
+	}
+	return nil
 }
 
 func newNode(idx, key int) (*node, error) {
@@ -73,6 +115,11 @@ func (n *node) peerID() peer.ID { return gen.PeerID(n.key) }
 
 // subscribe adds a subscription with a recording handler.
 func (n *node) subscribe(ch string) error {
+	if n.ps == nil {
+		// controller not running yet
+		n.pending = append(n.pending, ch)
+		return nil
+	}
 	sub, err := n.ps.AddSubscription(n.ctx, gen.Key(n.key), ch)
 	if err != nil {
 		return err
@@ -95,8 +142,72 @@ func (n *node) deliveries() []delivery {
 }
 
 func (n *node) close() {
-	n.ps.Close()
+	if n.ps != nil {
+		n.ps.Close()
+	}
 	n.cancel()
+	if n.ctrl != nil {
+		_ = n.ctrl.Close()
+	}
+}
+
+// connectCtl wires two controller-mode nodes: both controllers are told about the link; the side that opens the
+// pubsub stream gets one end of a tapped pipe, the other end is handed to the remote controller's stream handler.
+func connectCtl(t *tap, a, b *node, linkID uint64) (*pipeDir, *pipeDir, *atomic.Bool, error) {
+	up := &atomic.Bool{}
+	a1, a2 := net.Pipe()
+	b1, b2 := net.Pipe()
+	ab := &pipeDir{from: a.idx, to: b.idx, dst: b2}
+	ba := &pipeDir{from: b.idx, to: a.idx, dst: a2}
+	go pump(t, ab, a2)
+	go pump(t, ba, b2)
+	mla := &fakes.MountedLink{UUID: linkID, Local: a.peerID(), Remote: b.peerID()}
+	mlb := &fakes.MountedLink{UUID: linkID, Local: b.peerID(), Remote: a.peerID()}
+	var once sync.Once
+	open := func(src, dst *node, srcEnd, dstEnd net.Conn, mlSrc, mlDst *fakes.MountedLink) func(context.Context, protocol.ID) (link.MountedStream, error) {
+		return func(_ context.Context, pid protocol.ID) (link.MountedStream, error) {
+			var ms link.MountedStream
+			err := errors.New("verif: the link already carries a pubsub stream")
+			once.Do(func() {
+				err = nil
+				ms = &fakes.MountedStream{Strm: &fakes.Stream{Conn: srcEnd}, Proto: pid, Peer: dst.peerID(), Lnk: mlSrc}
+				go func() {
+					res, herr := dst.ctrl.HandleDirective(dst.ctx, fakes.NewInstance(link.NewHandleMountedStream(pid, dst.peerID(), src.peerID())))
+					if herr != nil || len(res) != 1 {
+						return
+					}
+					vh := fakes.NewResolverHandler()
+					if res[0].Resolve(dst.ctx, vh) != nil {
+						return
+					}
+					for _, v := range vh.All() {
+						if h, ok := v.(link.MountedStreamHandler); ok {
+							_ = h.HandleMountedStream(dst.ctx, &fakes.MountedStream{Strm: &fakes.Stream{Conn: dstEnd}, Proto: pid, Peer: src.peerID(), Lnk: mlDst})
+							up.Store(true)
+						}
+					}
+				}()
+			})
+			return ms, err
+		}
+	}
+	mla.OpenFn = open(a, b, a1, b1, mla, mlb)
+	mlb.OpenFn = open(b, a, b1, a1, mlb, mla)
+	for _, x := range []struct {
+		n  *node
+		ml *fakes.MountedLink
+	}{{a, mla}, {b, mlb}} {
+		inst := fakes.NewInstance(link.NewEstablishLinkWithPeer("", x.ml.Remote))
+		if _, err := x.n.ctrl.HandleDirective(x.n.ctx, inst); err != nil {
+			return nil, nil, nil, err
+		}
+		refs := inst.LiveRefs()
+		if len(refs) != 1 || refs[0].Handler == nil {
+			return nil, nil, nil, errors.New("pubsub controller did not watch the link directive")
+		}
+		refs[0].Handler.HandleValueAdded(inst, directive.NewAttachedValue(1, link.MountedLink(x.ml)))
+	}
+	return ab, ba, up, nil
 }
 
 // tapRec is one packet seen on a tapped pipe.
